@@ -249,6 +249,10 @@ def correspond(ctx):
             for nk, num, val in numerals(cul, ctx.thorough):
                 q = query_for(cul, kind, form, num)
                 jobs.append((mt, cul, kind, unit, form, nk, num, q))
+            # a spelling that itself contains a digit ('m2', 'km^3', 'ft2'): the numeral made of that digit — the unit key
+            # is cut out of the text AROUND the number's position, so the two equal digits must not be confused
+            for dch in sorted({c for c in form if c in '0123456789'} - {'0'}):
+                jobs.append((mt, cul, kind, unit, form, 'digit:' + dch, dch, query_for(cul, kind, form, dch)))
     chunks = [jobs[i::128] for i in range(128)]
     with mp.Pool(min(16, os.cpu_count() or 4)) as pool_:
         results = pool_.map(_pipeline_chunk, chunks)
@@ -266,7 +270,7 @@ def correspond(ctx):
         expected_unit = um.get(form)
         if expected_unit != unit:
             clashes += 1
-        val = dict((a, c) for a, b, c in numerals(cul, True)).get(nk)
+        val = nk[6:] if nk.startswith('digit:') else dict((a, c) for a, b, c in numerals(cul, True)).get(nk)
         ok = False
         why = ''
         if isinstance(got, str):
